@@ -14,6 +14,8 @@ import (
 // one score; classes sorted by reference key have strictly increasing scores (equivalent to the
 // pairwise statement); reported category = reference category.
 
+var c03TailMu sync.Mutex
+
 type c03class struct {
 	key    RefKey
 	scores map[uint64]int
@@ -108,6 +110,10 @@ func c03Sweep(ctx *RunCtx, rep *Report, short bool, pr combination.PowerRankings
 	close(work)
 	wg.Wait()
 
+	c03TailMu.Lock() // two sweeps run at the same time; the report is shared
+	defer c03TailMu.Unlock()
+	rep.mu.Lock()
+	defer rep.mu.Unlock()
 	keys := make([]RefKey, 0, len(merged))
 	for k := range merged {
 		keys = append(keys, k)
@@ -186,11 +192,21 @@ func checkC03(ctx *RunCtx) int {
 		rep.Inc("tables_from_constructors_differ_from_package_tables")
 	}
 	th := ctx.Thorough()
-	// both decks x both shipped ranking tables
-	c03Sweep(ctx, rep, false, std, "standard", true, th)
-	c03Sweep(ctx, rep, true, sd, "shortdeck", true, th)
-	c03Sweep(ctx, rep, true, std, "standard", th, false)
-	c03Sweep(ctx, rep, false, sd, "shortdeck", th, false)
+	// both decks x both shipped ranking tables; the two variants are evaluated at the same time on
+	// different goroutines, as a process that serves both kinds of table does
+	half := *ctx
+	half.Workers = (ctx.Workers + 1) / 2
+	pair := func(a, b func(c *RunCtx)) {
+		var wg sync.WaitGroup
+		wg.Add(2)
+		go func() { defer wg.Done(); a(&half) }()
+		go func() { defer wg.Done(); b(&half) }()
+		wg.Wait()
+	}
+	pair(func(c *RunCtx) { c03Sweep(c, rep, false, std, "standard", true, th) },
+		func(c *RunCtx) { c03Sweep(c, rep, true, sd, "shortdeck", true, th) })
+	pair(func(c *RunCtx) { c03Sweep(c, rep, true, std, "standard", th, false) },
+		func(c *RunCtx) { c03Sweep(c, rep, false, sd, "shortdeck", th, false) })
 	return finish(ctx, rep, &CheckSpec{
 		Prop: "C03", Level: "exploration", EvalCounter: "hands", NonTrivSet: "nontrivial", Exhaustive: true,
 		Rule:        "all 2,598,960 five-card hands of the 52-card deck and all 376,992 of the 36-card deck (minus the 1,020 short-deck A-6-7-8-9 hands the property leaves open, counted as skipped), under both shipped ranking tables, each hand presented in deck order and in a PRNG-chosen permutation (thorough: all 120 orders of one hand per class); hands are grouped by an independent reference key (category index in the given table, tiebreak vector): every class must have one score, classes sorted by reference key must have strictly increasing scores, reported category must equal the reference category. Non-trivial = distinct (deck, table, tie class)",
